@@ -228,6 +228,24 @@ func init() {
 				MinOps: mn, MaxOps: mx, QuiesceEvery: 4, KeysPerRun: 3, W: w, NoForeignClass: true})
 			return rc
 		}})
+	// the same with backends that cannot be updated through the socket (dynamic-scaling false), endpoints kept
+	// while not ready (drain-support) and a configured endpoint order: a rebuilt backend that equals the former
+	// one must not reload (FX-static-backend-sorted-after-compare)
+	register(&Profile{Name: "quiet-renotify-static", Prop: "C11", Weight: 1,
+		Oracles: OracleSet{Property: "C11", NoReload: true},
+		Build: func(seed uint64, tier string) *RunConfig {
+			r := cfgRng(seed)
+			mn, mx := tierOps(tier, 8, 24)
+			ctl := sampleCtl(r)
+			ctl.SortEndpointsBy = []string{"ip", "ip", "name"}[r.IntN(3)]
+			rc := &RunConfig{Property: "C11", Profile: "quiet-renotify-static", Seed: seed, Ctl: ctl, MapOrder: r.IntN(2) == 0, Lagfree: r.IntN(2) == 0, MidSched: r.IntN(2) == 0}
+			w := map[string]int{"renotify": 20, "advance": 4, "neutral_update": 14}
+			rc.World, rc.Ops = GenerateRun(seed, GenOptions{Sparse: r.IntN(2) == 0, IngressKeys: []string{"dynamic-scaling", "balance-algorithm", "blue-green-deploy"}, ForceIngressKeys: []string{"dynamic-scaling"},
+				ValueOverrides: map[string][]string{"dynamic-scaling": {"false"}}, AnnChance: 1,
+				GlobalKeys:     []string{"drain-support"}, InitialGlobal: map[string]string{"drain-support": "true"},
+				MinOps:         mn, MaxOps: mx, QuiesceEvery: 4, KeysPerRun: 3, W: w, NoForeignClass: true})
+			return rc
+		}})
 	register(&Profile{Name: "quiet-renotify", Prop: "C11", Weight: 1,
 		Oracles: OracleSet{Property: "C11", NoReload: true},
 		Build: func(seed uint64, tier string) *RunConfig {
